@@ -264,7 +264,8 @@ class Builder:
             self.ncb = getattr(self, "ncb", 0) + 1
             v = self.ncb % 6
             if v == 1:
-                st.callback(cb_fn, 1, x=2)
+                # (arguments of every shape: a tuple argument is one argument)
+                st.callback(cb_fn, (640, 480), 1, "s", [2], x=(3, 4), y={"k": ()})
                 cb = cb_fn
             elif v == 2:
                 cb = functools.partial(cb_fn, 0)
